@@ -5,8 +5,9 @@
   `Exit::exit` of yash-env, plus `sigpending`).
 
   Like `Kernel/Model.lean` this is the third party of the comparison VirtualSystem / real kernel / pivot,
-  not a transcription of `yash-env/src/system/virtual/process.rs`.  Scope: the standard signals HUP INT
-  QUIT USR1 USR2 PIPE ALRM TERM (default action: terminate), CHLD URG WINCH (default action: ignore) and
+  not a transcription of `yash-env/src/system/virtual/process.rs`.  Scope: the standard signals whose
+  default action is to terminate (HUP INT QUIT ILL TRAP ABRT BUS FPE USR1 SEGV USR2 PIPE ALRM TERM XCPU XFSZ
+  VTALRM PROF IO SYS, sent with kill/raise only — no faults), CHLD URG WINCH (default action: ignore) and
   KILL (sent only); no stop/continue
   signals, no real-time signals, no core dumps; one level of fork (a child does not fork).
   Where POSIX leaves a choice the pivot does what Linux does and says so.
@@ -15,18 +16,42 @@
 -/
 namespace YashModel.Kernel.Signal
 
-/-- in increasing Linux signal number (1 2 3 9 10 12 13 14 15 17 23 28): the order in which Linux delivers
+/-- in increasing Linux signal number (1-15, 17, 23-29, 31): the order in which Linux delivers
     several pending signals that become unblocked at once -/
 inductive Sig where
-  | HUP | INT | QUIT | KILL | USR1 | USR2 | PIPE | ALRM | TERM | CHLD | URG | WINCH
+  | HUP | INT | QUIT | ILL | TRAP | ABRT | BUS | FPE | KILL | USR1 | SEGV | USR2 | PIPE | ALRM | TERM
+  | CHLD | URG | XCPU | XFSZ | VTALRM | PROF | WINCH | IO | SYS
   deriving DecidableEq, Repr, Inhabited
 
 def Sig.all : List Sig :=
-  [.HUP, .INT, .QUIT, .KILL, .USR1, .USR2, .PIPE, .ALRM, .TERM, .CHLD, .URG, .WINCH]
+  [.HUP, .INT, .QUIT, .ILL, .TRAP, .ABRT, .BUS, .FPE, .KILL, .USR1, .SEGV, .USR2, .PIPE, .ALRM, .TERM,
+   .CHLD, .URG, .XCPU, .XFSZ, .VTALRM, .PROF, .WINCH, .IO, .SYS]
 
 def Sig.name : Sig → String
-  | .HUP => "HUP" | .INT => "INT" | .QUIT => "QUIT" | .KILL => "KILL" | .USR1 => "USR1" | .USR2 => "USR2"
-  | .PIPE => "PIPE" | .ALRM => "ALRM" | .TERM => "TERM" | .CHLD => "CHLD" | .URG => "URG" | .WINCH => "WINCH"
+  | .HUP => "HUP"
+  | .INT => "INT"
+  | .QUIT => "QUIT"
+  | .ILL => "ILL"
+  | .TRAP => "TRAP"
+  | .ABRT => "ABRT"
+  | .BUS => "BUS"
+  | .FPE => "FPE"
+  | .KILL => "KILL"
+  | .USR1 => "USR1"
+  | .SEGV => "SEGV"
+  | .USR2 => "USR2"
+  | .PIPE => "PIPE"
+  | .ALRM => "ALRM"
+  | .TERM => "TERM"
+  | .CHLD => "CHLD"
+  | .URG => "URG"
+  | .XCPU => "XCPU"
+  | .XFSZ => "XFSZ"
+  | .VTALRM => "VTALRM"
+  | .PROF => "PROF"
+  | .WINCH => "WINCH"
+  | .IO => "IO"
+  | .SYS => "SYS"
 
 /-- signals whose default action is to ignore the signal -/
 def defaultIgnored : Sig → Bool
